@@ -17,6 +17,7 @@ import (
 
 	"github.com/beevik/etree"
 	saml2 "github.com/russellhaering/gosaml2"
+	"github.com/russellhaering/gosaml2/types"
 	dsig "github.com/russellhaering/goxmldsig"
 
 	"verif/harness/mon"
@@ -25,7 +26,7 @@ import (
 
 func init() {
 	register(&Prop{ID: "C17", Run: runC17, Race: true, Workers: 8, MinNontrivial: 300,
-		Rule:        "race-detector build; (a) first-use rounds: a fresh SP per round is hit at a barrier by 8-16 goroutines whose first operation needs the lazily built signing context (document builders, POST body, both redirect builders, Sign*, SigningContext), with the signingctx.* hooks yielding or sleeping 0-200us to widen the window; rounds in which >= 2 goroutines were inside the slow path are counted; (b) one long-lived SP per key configuration under 16 goroutines x a seeded mix of every public operation (build, sign, redirect, POST, metadata, validation of genuine and hostile SSO responses and logout messages, the unverified decoders); (c) sequential purity: configuration snapshot before/after, repeated calls, mutation of every returned result; oracle: zero race-detector reports; every concurrent result equals the result of the same operation computed on a private identical SP beforehand (random IDs and ECDSA signatures compared by validity, not bytes); configuration snapshot unchanged; repeated call same outcome; later results unaffected by mutation; non-trivial = operations checked; distinct by (phase, operation, input index); one caller-assembled document shared by all goroutines through the redirect and POST helpers; encryption keys without precomputed CRT values; returned values scribbled over in place; four goroutines validating on a provider without a clock, configuration compared afterwards; fixtures with blank entries in the requested authentication contexts",
+		Rule:        "race-detector build; (a) first-use rounds: a fresh SP per round is hit at a barrier by 8-16 goroutines whose first operation needs the lazily built signing context (document builders, POST body, both redirect builders, Sign*, SigningContext), with the signingctx.* hooks yielding or sleeping 0-200us to widen the window; rounds in which >= 2 goroutines were inside the slow path are counted; (b) one long-lived SP per key configuration under 16 goroutines x a seeded mix of every public operation (build, sign, redirect, POST, metadata, validation of genuine and hostile SSO responses and logout messages, the unverified decoders); (c) sequential purity: configuration snapshot before/after, repeated calls, mutation of every returned result; oracle: zero race-detector reports; every concurrent result equals the result of the same operation computed on a private identical SP beforehand (random IDs and ECDSA signatures compared by validity, not bytes); configuration snapshot unchanged; repeated call same outcome; later results unaffected by mutation; non-trivial = operations checked; distinct by (phase, operation, input index); one caller-assembled document shared by all goroutines through the redirect and POST helpers; encryption keys without precomputed CRT values; returned values scribbled over in place; four goroutines validating on a provider without a clock, configuration compared afterwards; fixtures with blank entries in the requested authentication contexts; first-use rounds mixing metadata / validation calls among the signing ones with jittering field key stores, a round whose unfinished calls are all parked on locks with unchanged frames over five seconds is reported as never returning; class identical-validations-at-once (the same bytes validated by 4-12 goroutines at once, each result checked then scribbled over in turn)",
 		Assumptions: []string{"the race detector only sees executed interleavings", "SigningContext()'s return value is the SP's shared configuration object and is never mutated by the monitor"}})
 }
 
@@ -100,6 +101,10 @@ func digestResponse(sp *saml2.SAMLServiceProvider, enc string) string {
 	if err != nil {
 		return "err:" + errStage(err)
 	}
+	return digestOfResponse(r)
+}
+
+func digestOfResponse(r *types.Response) string {
 	d := fmt.Sprintf("flag=%v\n%s", r.SignatureValidated, sim.DumpLibRoot(r))
 	for i := range r.Assertions {
 		d += fmt.Sprintf("\n--%v\n%s", r.Assertions[i].SignatureValidated, sim.DumpLibAssertion(&r.Assertions[i]))
@@ -121,6 +126,9 @@ func newC17SP(f *c17Fixture) *KeyedSP {
 	}
 	if ks := ksp.Fields["encF"]; ks != nil && f.bareKey {
 		ks.Raw = BareRSA(ks.C.Key.RSA())
+	}
+	for _, ks := range ksp.Fields {
+		ks.Jitter = true // field key stores behave like slow external ones too (a file, an agent)
 	}
 	return ksp
 }
@@ -491,13 +499,26 @@ func runC17(c *mon.Ctx) {
 				idx = append(idx, i)
 			}
 		}
+		var meta []int
+		for i := range f.ops {
+			if strings.HasPrefix(f.ops[i].name, "Metadata") || f.ops[i].name == "GetCertBytes" {
+				meta = append(meta, i)
+			}
+		}
 		missInRound.Store(0)
 		start := make(chan struct{})
 		results := make([]string, G)
 		picks := make([]int, G)
 		var wg sync.WaitGroup
+		anyOp := k%2 == 1 // in every second round some goroutines make calls that do not need the signing context (metadata, validation)
 		for g := 0; g < G; g++ {
 			picks[g] = idx[r.IntN(len(idx))]
+			if anyOp && g%2 == 1 {
+				picks[g] = r.IntN(len(f.ops))
+				if g%4 == 1 && len(meta) > 0 {
+					picks[g] = meta[r.IntN(len(meta))] // metadata is what an IdP fetches while the first users log in
+				}
+			}
 			wg.Add(1)
 			go func(g int) {
 				defer wg.Done()
@@ -507,12 +528,19 @@ func runC17(c *mon.Ctx) {
 						results[g] = fmt.Sprintf("panic:%v", p)
 					}
 				}()
-				results[g] = f.ops[picks[g]].run(sp)
+				roundMarker(func() { results[g] = f.ops[picks[g]].run(sp) })
 			}(g)
 		}
 		close(start)
-		wg.Wait()
 		cs.Desc("keys=%s alg=%q canon=%s goroutines=%d", kc, f.alg.URI, f.canon.Name, G)
+		if returned, blocked := WaitRound(&wg, 20*time.Second); !returned {
+			if blocked != "" {
+				cs.Violation("calls-never-return:first-use", "concurrent first use of a fresh SP: the calls still running are all parked on locks, unchanged over five seconds:\n%s", trunc(blocked, 1500))
+			} else {
+				cs.Inconclusive("round-still-running")
+			}
+			continue
+		}
 		if missInRound.Load() >= 2 {
 			c.Count("rounds_with_overlapping_slow_path", 1)
 		}
@@ -574,7 +602,7 @@ func runC17(c *mon.Ctx) {
 								got = fmt.Sprintf("panic:%v", p)
 							}
 						}()
-						got = f.ops[oi].run(sp)
+						roundMarker(func() { got = f.ops[oi].run(sp) })
 					}()
 					checked.Add(1)
 					opCount[oi].Add(1)
@@ -584,8 +612,15 @@ func runC17(c *mon.Ctx) {
 				}
 			}(g)
 		}
-		wg.Wait()
 		cs.Desc("keys=%s alg=%q canon=%s goroutines=%d ops/goroutine=%d distinct ops=%d", kc, f.alg.URI, f.canon.Name, G, per, len(f.ops))
+		if returned, blocked := WaitRound(&wg, 90*time.Second); !returned {
+			if blocked != "" {
+				cs.Violation("calls-never-return:mixed", "mixed workload on one SP: the calls still running are all parked on locks, unchanged over five seconds:\n%s", trunc(blocked, 1500))
+			} else {
+				cs.Inconclusive("round-still-running")
+			}
+			continue
+		}
 		if fb, _ := firstBad.Load().(string); fb != "" {
 			cs.Violation("concurrent-result-differs:mixed", "%s", fb)
 		}
@@ -599,6 +634,109 @@ func runC17(c *mon.Ctx) {
 		cs.Nontrivial(fmt.Sprintf("mixed/%d", k))
 		cs.Outcome("done")
 		cs.Sample(map[string]any{"ops": checked.Load(), "keys": kc.String()})
+	}
+
+	// ---- (b2) identical validations at the same time, their results then altered one after the other ----
+	// Every caller gets a result of its own: what one caller does to its result afterwards is invisible in the results
+	// the others were handed, even when all of them presented the same bytes at the same moment.
+	ni := c.N(40, 1500)
+	for k := 0; k < ni; k++ {
+		cs := c.Begin("identical-validations-at-once", k)
+		if cs == nil {
+			continue
+		}
+		r := cs.Rand()
+		w := NewWorld(now)
+		g := GenGenuine(r, w, GenOpts{MaxAssertions: 2, NoCR: true})
+		doc, err := sim.BuildResponse(g.Rec, g.Style)
+		if err != nil {
+			cs.Inconclusive("simulator-error")
+			continue
+		}
+		enc := sim.Encode(doc, sim.RawLevel)
+		mk := func() *saml2.SAMLServiceProvider {
+			sp, _, _ := NewSP(now, w.IdP...)
+			sp.IDPCertificateStore = &dsig.MemoryX509CertificateStore{Roots: certsOf(w.IdP)}
+			sp.SPKeyStore = &RSAKeyStore{C: w.SPEnc}
+			return sp
+		}
+		alone, aerr := mk().ValidateEncodedResponse(enc)
+		aloneInfo, ierr := mk().RetrieveAssertionInfo(enc)
+		if aerr != nil || ierr != nil {
+			cs.Outcome("rejected-alone")
+			continue
+		}
+		want := digestOfResponse(alone)
+		wantInfo := fmt.Sprintf("%q %v %d", aloneInfo.NameID, aloneInfo.Values, len(aloneInfo.Assertions))
+		sp := mk()
+		G := 4 + r.IntN(9)
+		resps := make([]*types.Response, G)
+		infos := make([]*saml2.AssertionInfo, G)
+		start := make(chan struct{})
+		var wg sync.WaitGroup
+		for i := 0; i < G; i++ {
+			wg.Add(1)
+			go func(i int) {
+				defer wg.Done()
+				defer func() { _ = recover() }()
+				<-start
+				roundMarker(func() {
+					if i%3 == 2 {
+						infos[i], _ = sp.RetrieveAssertionInfo(enc)
+					} else {
+						resps[i], _ = sp.ValidateEncodedResponse(enc)
+					}
+				})
+			}(i)
+		}
+		close(start)
+		cs.Desc("goroutines=%d assertions=%d", G, len(g.Rec.Assertions))
+		cs.Input([]byte(doc))
+		if returned, blocked := WaitRound(&wg, 20*time.Second); !returned {
+			if blocked != "" {
+				cs.Violation("calls-never-return:identical-validations", "identical concurrent validations: the calls still running are all parked on locks, unchanged over five seconds:\n%s", trunc(blocked, 1500))
+			} else {
+				cs.Inconclusive("round-still-running")
+			}
+			continue
+		}
+		cs.Nontrivial(fmt.Sprintf("identical/%d", k))
+		bad := false
+		for i := 0; i < G && !bad; i++ {
+			switch {
+			case i%3 == 2 && infos[i] == nil, i%3 != 2 && resps[i] == nil:
+				bad = true
+				cs.Violation("concurrent-result-differs:identical-validations", "caller %d of %d was refused (or panicked) although the message is accepted alone", i, G)
+			case i%3 == 2:
+				ai := infos[i]
+				if got := fmt.Sprintf("%q %v %d", ai.NameID, ai.Values, len(ai.Assertions)); got != wantInfo {
+					bad = true
+					cs.Violation("mutation-leaks:concurrent-results", "caller %d's AssertionInfo reads %s after earlier callers altered their own results; alone it reads %s", i, trunc(got, 300), trunc(wantInfo, 300))
+					break
+				}
+				for n, v := range ai.Values {
+					for j := range v.Values {
+						v.Values[j].Value = "mutated"
+					}
+					ai.Values[n] = v
+				}
+				for j := range ai.Assertions {
+					Scribble(reflect.ValueOf(&ai.Assertions[j]))
+				}
+				ai.NameID = "mutated"
+			default:
+				if got := digestOfResponse(resps[i]); got != want {
+					bad = true
+					cs.Violation("mutation-leaks:concurrent-results", "caller %d's Response no longer reads as it does alone after earlier callers altered their own results", i)
+					break
+				}
+				Scribble(reflect.ValueOf(resps[i]))
+			}
+		}
+		if !bad {
+			cs.Outcome("independent")
+		}
+		c.Count("ops_checked", int64(G))
 	}
 
 	// ---- (c) sequential purity ----
